@@ -248,6 +248,9 @@ func TestVerif_C11_graphs(t *testing.T) {
 	defer func() {
 		col.Label("count:engine-calls-under-watchdog", int(c11EngineCalls.Load()))
 		col.Label("count:queries-run", int(c11QueriesRun.Load()))
+		if n := c11WatchdogRetries.Load(); n > 0 {
+			col.Label("count:watchdog-retries-that-then-returned", int(n))
+		}
 	}()
 
 	if p := verifkit.ReplayPath(); p != "" {
@@ -267,14 +270,21 @@ func TestVerif_C11_graphs(t *testing.T) {
 		return
 	}
 
-	verifkit.RapidSetup(600, 6000)
+	verifkit.RapidSetup(1200, 90000)
 	rapid.Check(t, func(rt *rapid.T) {
 		c := c11GenCase().Draw(rt, "case")
+		if c11Hung.Load() {
+			return // a call of an earlier case never returned; that case has been recorded, nothing more is executed
+		}
 		nt, labels := c11Classify(c)
 		col.Case(c, nt, labels...)
 		if msg := c11Run(c); msg != "" {
-			col.Fail(c, "%s", msg)
-			rt.Fatalf("%s", msg)
+			small, smsg := c11Minimize(c, c11Run)
+			if smsg == "" { // not reproducible on the second run: keep what failed
+				small, smsg = c, msg
+			}
+			col.Fail(small, "%s", smsg)
+			rt.Fatalf("%s", smsg)
 		}
 	})
 }
@@ -341,14 +351,23 @@ func TestVerif_C11_exhaustive3(t *testing.T) {
 		if (mask/stride)%shards != shard {
 			continue
 		}
+		if c11Hung.Load() {
+			col.Note("enumeration stopped early: a call of an earlier case never returned")
+			col.SetExhaustive(false)
+			return
+		}
 		c := c11Exhaustive3Case(mask)
 		nt, labels := c11Classify(c)
 		col.Case(c, nt, labels...)
 		graphs++
 		queries += len(c.Queries)
 		if msg := c11Run(c); msg != "" {
-			col.FailDistinct(c, "%s", fmt.Sprintf("digraph #%d: %s", mask, msg))
-			t.Errorf("digraph #%d: %s", mask, msg)
+			small, smsg := c11Minimize(c, c11Run)
+			if smsg == "" {
+				small, smsg = c, msg
+			}
+			col.FailDistinct(small, "%s", fmt.Sprintf("digraph #%d: %s", mask, smsg))
+			t.Errorf("digraph #%d: %s", mask, smsg)
 		}
 	}
 	col.Label("count:graphs-enumerated", graphs)
